@@ -286,6 +286,9 @@ type Session struct {
 	queries int
 	ms      int64
 	logf    *os.File
+	softMs  int
+	feasMs  int
+	curMs   int
 }
 
 const prelude = `(set-option :produce-models true)
@@ -314,7 +317,7 @@ func newSession(softMs int, logPath string) (*Session, error) {
 	if err := cmd.Start(); err != nil {
 		return nil, err
 	}
-	s := &Session{cmd: cmd, in: in, out: bufio.NewReaderSize(out, 1<<16)}
+	s := &Session{cmd: cmd, in: in, out: bufio.NewReaderSize(out, 1<<16), softMs: softMs, feasMs: 150, curMs: softMs}
 	if logPath != "" {
 		s.logf, _ = os.Create(logPath)
 	}
@@ -360,6 +363,23 @@ func (s *Session) Pop() {
 	s.marks = s.marks[:len(s.marks)-1]
 	s.lines = s.lines[:n]
 	s.raw("(pop 1)")
+}
+
+// Feasible is a cheap satisfiability check used to prune infeasible branches: "unknown" after a
+// short time limit counts as feasible (pruning is an optimisation, never needed for soundness).
+func (s *Session) Feasible() string {
+	s.setTimeout(s.feasMs)
+	r := s.Check()
+	s.setTimeout(s.softMs)
+	return r
+}
+
+func (s *Session) setTimeout(ms int) {
+	if ms <= 0 || ms == s.curMs {
+		return
+	}
+	s.curMs = ms
+	s.raw(fmt.Sprintf("(set-option :timeout %d)", ms))
 }
 
 // Check returns "sat", "unsat" or "unknown".
